@@ -144,16 +144,25 @@ func VerifC07_GasUsed() {
 	collector0 := bank.collector.Sub(upfront)
 	bank.sender = zz.AnyAmount("senderAfterDeduction", 128)
 	sender0 := bank.sender.Add(upfront)
-	k := &Keeper{cdc: zz.Codec(), storeKey: env.Key("evm"), transientKey: env.Key("transient_evm"), bankKeeper: bank, feeMarketKeeper: c07FeeMarket{mult: mult}}
+	ak := &c02kAK{accs: map[string]authtypes.AccountI{}}
+	ak.accs[string(sdk.AccAddress(c07From.Bytes()))] = ak.NewAccountWithAddress(env.Ctx, sdk.AccAddress(c07From.Bytes()))
+	k := &Keeper{cdc: zz.Codec(), storeKey: env.Key("evm"), transientKey: env.Key("transient_evm"), bankKeeper: bank, accountKeeper: ak, feeMarketKeeper: c07FeeMarket{mult: mult}}
 
 	c07.leftover = zz.AnyUint64("evmLeftover")
 	c07.refund = zz.AnyUint64In("refundCounter", 0, 1<<62)
 	c07.fail = zz.AnyBool("vmError")
 	c07.intrinsic = zz.AnyUint64In("intrinsicGas", 0, 1<<62)
-	to := &c07To // a message call (contract creation additionally bumps the sender nonce through the account keeper; not needed for the gas identities)
+	to := &c07To
+	if zz.AnyBool("contractCreation") {
+		to = nil // contract creation: same gas identities; the nonce handling around evm.Create is C03's subject
+	}
+	c07.createBumpsNonce = true
 	msg := ethtypes.NewMessage(c07From, to, 0, big.NewInt(0), gasLimit, price, price, price, nil, nil, false)
 	p := types.DefaultParams()
 	p.ActivePrecompiles = nil // the stateful precompiles are not part of this harness
+	if err := k.SetParams(env.Ctx, p); err != nil { // the keeper write-back of the sender (nonce bump of a creation) reads the EVM denomination
+		panic(err)
+	}
 	cfg := &statedb.EVMConfig{Params: p, ChainConfig: p.ChainConfig.EthereumConfig(big.NewInt(11235)), BaseFee: big.NewInt(0)}
 	res, err := k.ApplyMessageWithConfig(env.Ctx, msg, types.NewNoOpTracer(), true, cfg, statedb.NewEmptyTxConfig(common.Hash{}))
 	if err != nil {
